@@ -7,6 +7,18 @@ HERE = os.path.dirname(os.path.dirname(os.path.abspath(__file__)))
 PY = '/venv/bin/python'
 
 CHECKS = {
+    'C01': dict(
+        technique='property-based testing: model trees rendered under generated layouts, matcher oracle over the parsed AST; exhaustive operator pair/triple tables; token-level mutation and word-fusion fuzzing against an Earley recogniser and a longest-match oracle; differential of hpl.grammar against the .lark sources',
+        level='bounded exploration with an independent intended-tree oracle: every operator pair (and same-level triple; all triples in the thorough tier) is enumerated, thousands of random type-directed texts per run cover all five entry points, every scope/pattern, disjunction widths 1-4, time units, metadata and keyword-prefixed names under random whitespace and parenthesisation; the reject side is decided by a recogniser built from the .lark sources. Absence of defects beyond depth 5 / these name pools is not shown.',
+        note='trusts the .lark files as the documented grammar, Lark Earley as recogniser, and the precedence table transcribed in hplverif/mast.py',
+        ref='DESIGN.md section 4, C01',
+    ),
+    'C06': dict(
+        technique='property-based round trip: parse generated text, str(), parse again with the entry point of that level; equality, hash and second-print oracle; run-wide injectivity map',
+        level='bounded exploration: thousands of parser-produced ASTs per run over all node kinds, with time bounds from the whole double range in both units; every AST must print to text that parses to an equal, hash-equal AST that prints identically, and unequal ASTs must never share a printed form',
+        note='only ASTs produced by the parser are in scope (as the property states); texts the parser rejects are counted and skipped',
+        ref='DESIGN.md section 4, C06',
+    ),
     'C20': dict(
         technique='small-scope exhaustive enumeration against a 7-bit integer model (generated-input search with a reference model)',
         level='every one of the 128 type sets, 128^2 pairs and 128^3 triples is enumerated and compared with a bit-mask model; the space is finite, so on this tree the statement is checked completely (exhaustive: true)',
